@@ -14,7 +14,8 @@ namespace occa {
 
       withLauncher::withLauncher(const occa::json &settings_) :
         parser_t(settings_),
-        launcherParser(settings["launcher"]) {
+        launcherParser(settings["launcher"]),
+        launchBoundsAreExact(true) {
         launcherParser.settings["okl/validate"] = false;
         add_barriers = settings.get("okl/add_barriers", true);
       }
@@ -443,6 +444,7 @@ namespace occa {
 
         bool addLaunchBoundsAttribute{true};
         int kernelInnerDims[3] = {1,1,1};
+        launchBoundsAreExact = !newForSmnt.hasAttribute("max_inner_dims");
         if (newForSmnt.hasAttribute("max_inner_dims")) {
           attributeToken_t& attr = newForSmnt.attributes["max_inner_dims"];      
 
